@@ -45,7 +45,7 @@ def sym_env():
     had_slice = "slice" in tlo.__dict__
     old_slice = tlo.__dict__.get("slice")
     old_op = tlo.operator
-    tlo.slice = MSlice
+    tlo.slice = envmodels.SliceShadow
     tlo.operator = OpModel()
     try:
         yield
